@@ -30,7 +30,7 @@ def make_case(i, rng, tier):
     p = common.spec("pretty", inp["root"], data, inp["cc"], inp["enc"], strict=strict, consumer="pretty")
     e = common.spec("events", inp["root"], data, inp["cc"], inp["enc"], strict=strict, consumer="events")
     tasks, sched = common.perturb(rng, [p, e], p_by=0.15)
-    return {"input": {"root": inp["root"], "cc": inp["cc"], "enc": inp["enc"], "label": inp["label"], "family": fam},
+    return {"input": {"root": inp["root"], "cc": inp["cc"], "enc": inp["enc"], "label": inp["label"], "family": fam, "orig": bytes(inp["data"]).hex()},
             "faults": recs, "tasks": tasks, "schedule": sched}
 
 
@@ -256,6 +256,7 @@ def match_prefix(lines, rows):
 
 
 def shrink(case):
+    yield from common.shrink_faults(case, ("pretty", "events"))
     yield from common.shrink_tasks(case, {"pretty", "events"})
     for tid in ("pretty", "events"):
         for c in common.shrink_bytes_tail(case, tid):
